@@ -54,8 +54,8 @@ pub mod w8 {
       relation r5(i64, i64, i64);
       r5(0, 3, 2) <-- r1(1);
       r5(1, ((*v0) + 1), v2) <-- r5(v0, v1, v2), if ((*v0) < 3), r0(v2, v1), if ((*v0) < 6);
-      r2(v0, v1) <-- let v9 = 2, r3(v0, v1), r3(v1, v9);
-      r2(v0, v1) <-- for v9 in 0..2, r0(v0, v1), r3(v9, v1);
+      r2(v0, v1) <-- r3(v0, v1) if ((*v0) < 2), r3(v1, v2) if ((*v2) != (*v1));
+      r2(v0, v1) <-- r3(v0, v1), r2(v0, v0), r3(v1, v2);
       r3(v1, v1) <-- if let Some(v0) = Some(2), r1(v1), if (v0 <= 1), r0(0, v1), r0(v2, v1);
       r5(1, 3, 3);
    }
